@@ -125,4 +125,117 @@ def check_C20(tier, seed, replay=None):
         b.cleanup()
 
 
-CHECKS = {"C20": check_C20}
+# ------------------------------------------------------------------ C18
+def build_fs(b):
+    vs = b.build_variants([Variant("def", flavour="asan", knobs=True), Variant("ts", mmc=0, mzdcache=0, flavour="asan", knobs=True),
+                           Variant("nosse", sse2=0, flavour="asan", knobs=True)])
+    return b.build_engine("fs", ["gen.c", "eng/engutil.c", "eng/fs.c"], vs, "asan"), vs
+
+
+def parse_counts(s):
+    d = {}
+    for tok in s.split(","):
+        if ":" in tok:
+            k, _, v = tok.partition(":")
+            d[k] = int(v)
+    return d
+
+
+def check_C18(tier, seed, replay=None):
+    t0 = time.time()
+    rep = Report("C18")
+    b = Builder()
+    try:
+        exe, vs = build_fs(b)
+        if replay:
+            r = exec_prog(exe, replay)
+            print(r.get("raw"))
+            ok = r.get("cls", "") == "ok"
+            if not ok:
+                print("VIOLATION property=C18 replay=%s" % replay)
+            return 0 if ok else 1
+        total = 40 if tier == "quick" else 640
+        outdir = os.path.join(b.scratch, "out")
+        lines, crashes = fanout(exe, seed, total, tier, outdir, 120 if tier == "quick" else 1500)
+        for c in crashes:
+            rep.harness("fs worker %d exited with %d: %s" % (c["worker"], c["rc"], c["tail"][-3:]))
+        fates, verdicts, probes, per_kind, hashes, vl = {}, {}, {}, {}, [], []
+        children = 0
+        for w, l in lines:
+            tag, d = kv(l)
+            if tag == "R":
+                children += int(d["children"])
+                hashes.append((int(d["idx"]), d["hash"]))
+                k = per_kind.setdefault(d["scen"], dict(cases=0, child_runs=0, violations=0))
+                k["cases"] += 1; k["child_runs"] += int(d["children"]); k["violations"] += int(d["viol"])
+                for kk, v in parse_counts(d["fates"]).items():
+                    fates[kk] = fates.get(kk, 0) + v
+                for kk, v in parse_counts(d["verdicts"]).items():
+                    verdicts[kk] = verdicts.get(kk, 0) + v
+            elif tag == "T":
+                for kk, v in d.items():
+                    if kk.startswith("p."):
+                        probes[kk[2:]] = probes.get(kk[2:], 0) + int(v)
+            elif tag == "V":
+                vl.append(d)
+        if children == 0:
+            rep.harness("no child run")
+        stuck = sorted(k for k, v in probes.items() if v == 0)
+        if tier == "thorough" and stuck:
+            rep.harness("reach probes stuck at zero: %s" % stuck)
+
+        def sig(v, sym):
+            return "fs|%s|%s|%s" % (v.get("scen"), v.get("class"), v.get("func", "-"))
+        process_violations(rep, exe, vl, None, outdir, seed, sig,
+                           keep_pred=lambda l: l.startswith("#") or l.startswith("lib ") or l.startswith("expect") or l.startswith("cut") or l.startswith("ioerr"))
+        samples = []
+        per = (total + driver.NWORKERS - 1) // driver.NWORKERS
+        for w in range(0, driver.NWORKERS, 5):
+            p = os.path.join(outdir, "cur-%d.prog" % (w * per))
+            if os.path.exists(p):
+                samples.append(open(p).read())
+        wall = time.time() - t0
+        faults = {
+            "file torn (EOF at offset, every offset of the file)": probes.get("torn_in_signature", 0) + probes.get("torn_in_IHDR", 0) + probes.get("torn_in_tEXt", 0) + probes.get("torn_in_IDAT", 0) + probes.get("torn_in_IEND", 0) + probes.get("jcf_torn", 0),
+            "bit flipped at rest": sum(probes.get(k, 0) for k in ("flip_in_length", "flip_in_type", "flip_in_data", "flip_in_crc", "flip_in_signature")),
+            "read fails with EIO": probes.get("eio_on_png_read", 0) + probes.get("jcf_eio", 0),
+            "short reads (1..7 bytes per read call)": probes.get("short_reads_roundtrip", 0),
+            "write fails with ENOSPC": probes.get("write_enospc", 0),
+            "fopen fails (EACCES/EMFILE)": probes.get("write_open_fail", 0),
+            "fclose fails": probes.get("write_close_fail", 0),
+            "foreign writer (unsupported / non-library PNG)": sum(probes.get("foreign_depth%d" % d, 0) for d in (1, 2, 4, 8, 16)),
+            "malformed JCF token": sum(probes.get(k, 0) for k in ("jcf_index0", "jcf_positive_first", "jcf_index_too_large", "jcf_too_many_rows", "jcf_bad_modulus", "jcf_short_header", "jcf_negative_dims", "jcf_huge_dims")),
+        }
+        cov = dict(
+            evaluations=children,
+            distinct_nontrivial=sum(v for k, v in fates.items() if k != "exit0") + verdicts.get("equal", 0) + verdicts.get("null", 0),
+            rule="one evaluation = one forked execution of a program (write and/or read of one simulated file under one fault plan). Truncation offsets are "
+                 "enumerated completely per file, single-bit flips completely for files up to 150/750 bytes (quick/thorough) and sampled above, the rest is seeded. "
+                 "Non-trivial = the child reached a judged outcome (terminated by libpng/m4ri_die, or returned NULL, or returned a matrix that was compared); "
+                 "distinct by construction within a file (different offset/bit), files differ by seed",
+            exhaustive=False,
+            exhaustive_scope="truncation at every byte offset of each generated PNG file is complete; everything else is sampled",
+            samples=samples[:4], cases=len(hashes), per_kind=per_kind, child_fates=fates, child_verdicts=verdicts,
+            fault_kinds_fired=faults, reach_probes=probes, probes_stuck_at_zero=stuck,
+            runs_per_hour=int(children / max(wall, 1e-3) * 3600), seeds_per_hour=int(len(hashes) / max(wall, 1e-3) * 3600),
+            simulated_time="simulated wall clock: one seeded time_t per written file in 1903..2156 plus seeded jumps between time() and localtime(); no durations are modelled",
+            run_hash_digest=digest(hashes), variants=[v.describe() for v in vs], source_sha256=b.sha,
+            real_components=["m4ri io.c and everything it calls", "libpng", "zlib", "libc stdio (FILE buffering, fscanf)"],
+            simulated_components=["file system behind fopen (fopencookie streams over memory)", "time()/localtime()", "heap front end (ledger, 64 MiB limit)", "abort()"],
+        )
+        write_evidence("C18", tier, seed, "fault_enumeration", cov,
+                       ["a returned matrix that differs from the written one after truncation/EIO/one flipped bit counts as a violation: PNG chunks are CRC protected, so accepting such a file means unverified bytes were used",
+                        "palette images: only memory safety and the ledger are judged (pixel meaning is the foreign writer's business)",
+                        "the reference JCF reader mirrors scanf(\"%ld\") tokenisation; numbers with more than 18 digits are never generated",
+                        "allocations made by libpng/zlib are outside the ledger"],
+                       wall, len(rep.violations))
+        print("C18 %s: %d cases, %d child runs, fates %s, %d violating runs, %.1fs" % (tier, len(hashes), children, fates, len(vl), wall))
+        return rep.exit_code()
+    except BuildError as e:
+        print("HARNESS-ERROR: build failed: %s" % e)
+        return 2
+    finally:
+        b.cleanup()
+
+
+CHECKS = {"C20": check_C20, "C18": check_C18}
